@@ -60,7 +60,7 @@ def gen_cons(rng, ndim, box=None, push_out=0.0):
 
 
 def gen_pen(rng):
-    k = rng.choice(["none", "quad", "lin"])
+    k = rng.choice(["none", "quad", "lin", "slin"])
     if k == "none":
         return dict(kind=k)
     return dict(kind=k, c=grid(rng, -1, 1), w=rng.choice([1.0, 10.0, 0.5]))
@@ -136,7 +136,7 @@ def gen_script(rng, solvers=L.SOLVERS, nops=(3, 9), p_mid=0.5, allow_modes=False
         o = dict(op="SetStrictRanges", lo=sbox[0], hi=sbox[1])
         if allow_modes and rng.random() < 0.5:
             o["tight"], o["clip"] = rng.choice([(True, None), (None, True), (True, True), (False, None)] if det_modes else
-                                               [(True, None), (None, True), (True, True), (None, False), (True, False), (False, None)])
+                                               [(True, None), (None, True), (True, True), (None, False), (True, False), (False, None), (False, None), (False, None)])
             if any(v in (INF, -INF) for v in sbox[0] + sbox[1]):
                 o["tight"], o["clip"] = None, None
         cfg.append(o)
@@ -230,6 +230,11 @@ def gen_script(rng, solvers=L.SOLVERS, nops=(3, 9), p_mid=0.5, allow_modes=False
                                ScalingFactor=rng.choice([0, 0.0, 1.0, 0.5, 0.8]))
                 case["de_kw"] = True
                 break
+    # a signed penalty only next to costs that dominate it (cost + a linear term must stay bounded below)
+    if any(o["op"] == "SetObjective" and o["cost"]["kind"] != "quad" for o in ops):
+        for o in ops:
+            if o["op"] == "SetPenalty" and o["pen"]["kind"] == "slin":
+                o["pen"]["kind"] = "lin"
     # Nelder-Mead / Powell options given once as keywords of the first Step/Solve: they stay in force (and travel with a saved solver)
     if kind in ("NM", "POW") and rng.random() < 0.3:
         for o in ops:
